@@ -13,10 +13,9 @@ package main
 
 import (
 	"bytes"
-	stdcrypto "crypto"
-	_ "crypto/sha1"
-	_ "crypto/sha256"
-	_ "crypto/sha512"
+	"crypto/sha1"
+	"crypto/sha256"
+	"crypto/sha512"
 	"encoding/base64"
 	"encoding/hex"
 	"encoding/json"
@@ -27,8 +26,8 @@ import (
 	"sort"
 	"strings"
 
-	_ "golang.org/x/crypto/blake2b"
-	_ "golang.org/x/crypto/sha3"
+	"golang.org/x/crypto/blake2b"
+	"golang.org/x/crypto/sha3"
 
 	xcrypto "mellium.im/xmpp/crypto"
 	"mellium.im/xmpp/disco"
@@ -66,7 +65,7 @@ type fieldD struct {
 
 type formD struct {
 	Fields []fieldD `json:"fields"`
-	Zero   bool     `json:"zero,omitempty"`  // form.Data{} zero value (struct construction only)
+	Zero   bool     `json:"zero,omitempty"`   // form.Data{} zero value (struct construction only)
 	SetFT  *HS      `json:"set_ft,omitempty"` // Data.Set("FORM_TYPE", v) after construction (struct only)
 }
 
@@ -729,13 +728,16 @@ func panicKey(d infoD) string {
 	return "C20/hash/panic:other"
 }
 
+// algos: the hash functions of crypto/crypto.go by their XMPP names, each with
+// an independently constructed reference.
 var algos = []struct {
 	name string
-	h    xcrypto.Hash
+	ref  func() hash.Hash
 }{
-	{"sha-1", xcrypto.SHA1}, {"sha-224", xcrypto.SHA224}, {"sha-256", xcrypto.SHA256}, {"sha-384", xcrypto.SHA384},
-	{"sha-512", xcrypto.SHA512}, {"sha3-256", xcrypto.SHA3_256}, {"sha3-512", xcrypto.SHA3_512},
-	{"blake2b256", xcrypto.BLAKE2b_256}, {"blake2b512", xcrypto.BLAKE2b_512},
+	{"sha-1", sha1.New}, {"sha-224", sha256.New224}, {"sha-256", sha256.New}, {"sha-384", sha512.New384},
+	{"sha-512", sha512.New}, {"sha3-256", sha3.New256}, {"sha3-512", sha3.New512},
+	{"blake2b256", func() hash.Hash { h, _ := blake2b.New256(nil); return h }},
+	{"blake2b512", func() hash.Hash { h, _ := blake2b.New512(nil); return h }},
 }
 
 // xepKey classifies a disagreement with section 5.1 by the part of the string
@@ -851,20 +853,21 @@ func (x *runner) one(via string, d infoD, emit bool) {
 	// 4. every supported hash function sees the same string
 	if r.Chance(1, 3) {
 		for _, al := range algos {
-			if !al.h.Available() {
+			ah, err := xcrypto.Parse(al.name)
+			if err != nil || !ah.Available() {
 				x.res.Histogram["algo-unavailable:"+al.name]++
 				continue
 			}
 			in := x.build(via, d)
 			var got string
-			if p := hx.Catch(func() { got = in.Hash(al.h.New()) }); p != "" {
+			if p := hx.Catch(func() { got = in.Hash(ah.New()) }); p != "" {
 				x.res.Fail(panicKey(d), "Info.Hash("+al.name+") panics: "+p, c)
 				continue
 			}
-			var hh hash.Hash = stdcrypto.Hash(al.h).New()
+			hh := al.ref()
 			hh.Write([]byte(s0))
 			if want := base64.StdEncoding.EncodeToString(hh.Sum(nil)); got != want {
-				x.res.Fail("C20/hash/algo", fmt.Sprintf("Hash(%s)=%q but the hash of the recorded string is %q", al.name, got, want), c)
+				x.res.Fail("C20/hash/algo", fmt.Sprintf("Hash(%s)=%q but the %s of the recorded string is %q", al.name, got, al.name, want), c)
 			}
 			x.res.Histogram["algo:"+al.name]++
 		}
@@ -1396,7 +1399,9 @@ func hs(l ...string) []HS {
 	return o
 }
 
-func fld(v, typ string, vals ...string) fieldD { return fieldD{Var: HS(v), Typ: typ, Vals: hs(vals...)} }
+func fld(v, typ string, vals ...string) fieldD {
+	return fieldD{Var: HS(v), Typ: typ, Vals: hs(vals...)}
+}
 
 var xepSimple = infoD{
 	Ids:   []identD{{"client", "pc", "", "Exodus 0.9.1"}},
@@ -1483,6 +1488,36 @@ var rawCorpus = []string{
 	`<query xmlns='http://jabber.org/protocol/disco#info'><x xmlns='jabber:x:data' type='result'><field var='a'><value>1`,
 	`<query xmlns='http://jabber.org/protocol/disco#info' node='n'/>`,
 	``,
+}
+
+// xepExamples: the published verification strings of XEP-0115 5.2 and 5.3,
+// with the hash function taken from a decoded <c/> element (disco/caps.go).
+func (x *runner) xepExamples() {
+	for _, e := range []struct {
+		d    infoD
+		caps string
+	}{
+		{xepSimple, `<c xmlns='http://jabber.org/protocol/caps' hash='sha-1' node='http://code.google.com/p/exodus' ver='QgayPKawpkPSDYmwT/WM94uAlu0='/>`},
+		{xepComplex, `<c xmlns='http://jabber.org/protocol/caps' hash='sha-1' node='http://psi-im.org' ver='q07IKJEyjvHSyhy//CH0CxmKi8w='/>`},
+	} {
+		var c disco.Caps
+		if err := xml.Unmarshal([]byte(e.caps), &c); err != nil || !c.Hash.Available() {
+			x.res.Histogram["xep-example:caps-not-decoded(not C20)"]++
+			continue
+		}
+		for _, via := range []string{"struct", "xml"} {
+			for _, d := range append([]infoD{e.d}, x.perms("all", e.d)...) {
+				var got string
+				cc := hCase{Kind: "hash", Via: via, Info: d}
+				if p := hx.Catch(func() { got = x.build(via, d).Hash(c.Hash.New()) }); p != "" {
+					x.res.Fail(panicKey(d), "Info.Hash panics on the XEP example: "+p, cc)
+				} else if got != c.Ver {
+					x.res.Fail("C20/hash/xep-example", fmt.Sprintf("XEP-0115 example: Hash = %q, published ver = %q", got, c.Ver), cc)
+				}
+				x.res.Histogram["xep-example"]++
+			}
+		}
+	}
 }
 
 // ---- exhaustive small scope ----
@@ -1592,6 +1627,7 @@ func main() {
 		for _, doc := range rawCorpus {
 			x.rawXML(doc, true)
 		}
+		x.xepExamples()
 		ns := x.smallScope(every)
 		res.Extra["exhaustive_small_scope"] = fmt.Sprintf("%d infos: every sequence of up to 3 forms over a pool of 6 shapes (empty, no FORM_TYPE, equal and prefix-related FORM_TYPEs), every duplicate-free sequence of up to 3 identities over 4, every sequence of up to 3 features over 4; each with every permutation at every level", ns)
 		total := x.limit
